@@ -7,8 +7,8 @@ import coqemit as E
 
 ID = "C19"
 PROPS = "Props/C19.v"
-IMPORTS = "From PV Require Import Lib.Common Model.C19_Pareto."
-SHARD = 40
+IMPORTS = "From PV Require Import Lib.Common Model.C19_Pareto Gen.C19_Kernel Proofs.C19_Kernel."
+SHARD = 80
 LEVEL_TEXT = ("Coq theorems over an exact-rational executable model: the pivot filter of is_pareto_efficient (with its index "
               "bookkeeping; termination within npt iterations) marks only non-dominated points and every unmarked point is equalled or "
               "dominated by a marked one, for every finite rectangular point set and every weight vector; the index form is flatnonzero "
@@ -21,21 +21,42 @@ LEVEL_TEXT = ("Coq theorems over an exact-rational executable model: the pivot f
               "to be the core function with the documented roles of their two vector arguments (objectives signed by obj_wt, distance "
               "to the line spanned by vec_wt) for every sign vector and every non-negative non-zero preference vector (after commit "
               "9b993ed9, which repaired finding C19-trans-roles-swapped; the former code is kept as old_trans_sel and refuted as a "
-              "regression witness). The model is tied to the code by evaluating it inside Coq against the implementation's outputs "
-              "on generated inputs")
+              "regression witness); the distances are invariant under a change of unit of any objective (column times c > 0). The "
+              "kernel expressions of the source (48: weighting, strict pivot comparison, loop guard, pivot recount of the filter; the "
+              "body of dominates; per copy of the transformation the signing, shift, range, EXACT zero-range guard, fills, reciprocal, "
+              "scaling, projection coefficient, projection and residual; the three assertions of the core copy) are regenerated "
+              "from the source on every run (Gen/C19_Kernel.v), the filter loop, dominates and the three transformation bodies "
+              "assembled from them are proved equal to the model for all inputs, and the guard/scale/dominance/filter laws are "
+              "stated about the generated definitions, so a changed expression breaks the proof build whatever the sampled cases "
+              "are. The model is tied to the code by evaluating it (and the bodies assembled from the generated kernels) inside "
+              "Coq against the implementation's outputs on generated inputs")
 LEVEL_NOTE = ("trusted: Coq kernel + vm_compute; numpy float comparisons/products/differences are exact on the dyadic input grid; the "
               "1/range scaling, the dot products and numpy.linalg.norm are compared in regime T (squared distance within 2^-30(1+|y|) of "
               "the exact rational); float overflow, NaN inputs, ragged/mis-shaped inputs are outside the model; the theorems are about "
-              "the Gallina model, the tie to the code is differential on generated inputs")
+              "the Gallina model, the tie to the code is differential on generated inputs plus the regenerated kernel expressions "
+              "(harness/translate/c19_kernel.py + pyexpr.py are trusted to translate the located expressions faithfully; statement "
+              "order, array plumbing such as fmat[ndpt_mask], numpy.linalg.norm(.., axis=1) and the reductions are matched "
+              "verbatim, fail closed)")
 TECHNIQUE = "Coq proof over an exact-rational executable model; in-Coq vm_compute correspondence with the implementation"
 RULE = ("case = (function, arguments): pareto (fmat, wt, a permutation, a positive column rescale), dom (three (obj, cv) solutions: all 9 "
         "ordered pairs), dist (one of the three transformation functions, mat, sign vector, preference vector, a translation); generated "
         "from one PRNG over styles small-integer grid (ties/duplicates), k/64 grid, collinear front, chain, duplicated points, single "
         "point, constant objective; npt 0..14 (thorough ..40), nobj 1..4; weights of both signs and zero; preference vectors on the grid "
         "{0,1/4,..,3}^nobj (all of {0,1/2,1,2}^2 on a fixed front), plus inputs outside the quantified domain (zero/negative "
-        "preference, zero sign vector: AssertionError / NaN compared coarsely). non-trivial = at least two points that are not all "
+        "preference, zero sign vector: AssertionError / NaN compared coarsely). Phase 2: every objective in its own unit 2^e, "
+        "e in -40..20 (fronts, point sets, objectives of dominates; weights and rescales 2^-40 / 2^20); style tiny = exact ties "
+        "next to differences of 2^-27..2^-45 and constant columns; constraint scores +-2^-40, +-2^-60; memory layouts C / Fortran / "
+        "strided view / read-only / integer dtype; scores as float, numpy.float64, 0-d array; extra keyword arguments; the default "
+        "ndset_trans and default keyword arguments installed by SelectionProtocol's setters; positional and keyword calls; a "
+        "second call on the same array object after an in-place update (translated, points reversed); the front re-expressed in "
+        "units 2^-40..2^20 must give the same distances; results must not share memory with inputs and a repeated call must not "
+        "depend on the overwritten first result; point sets of 141 and 271 points (indices beyond int8/uint8); every public "
+        "definition of the five anchored modules is classified COVERED (with its parameter list) or SKIPPED (reason), fail closed. "
+        "non-trivial = at least two points that are not all "
         "equal (dom: the three solutions are not all identical); distinct by SHA-256 of the case")
-TRUSTED = ["float products/differences/comparisons of dyadic inputs (k/64, |x| <= 8, weights m/4) are exact",
+TRUSTED = ["float products/differences/comparisons of dyadic inputs (k/64, |x| <= 8, weights m/4, units 2^-40..2^20; the generator verifies "
+           "with exact rationals that every product, translation and in-column difference is an exact float) are exact",
+           "harness/translate/c19_kernel.py + pyexpr.py translate the located source expressions faithfully (fail closed otherwise)",
            "numpy.linalg.norm, 1.0/range and the dot products are compared in tolerance regime T on the squared distance"]
 ASSUMPTIONS = ["rectangular fmat/mat with len(wt) = nobj >= 1, finite non-NaN entries, no float overflow",
                "distance transforms: sign entries non-zero and preference vector non-negative non-zero for the predicate "
@@ -43,8 +64,14 @@ ASSUMPTIONS = ["rectangular fmat/mat with len(wt) = nobj >= 1, finite non-NaN en
 
 WT = [-4.0, -2.0, -1.0, -1.0, -0.5, -0.25, 0.0, 0.25, 0.5, 1.0, 1.0, 1.0, 2.0, 3.0]
 PREF = [0.0, 0.25, 0.5, 0.75, 1.0, 1.0, 1.5, 2.0, 3.0]
-POS = [0.25, 0.5, 2.0, 3.0, 4.0, 0.75]
-STYLES = ["small", "small", "fine", "collinear", "chain", "dups", "const", "binary"]
+POS = [0.25, 0.5, 2.0, 3.0, 4.0, 0.75, 2.0 ** -40, 2.0 ** 20, 3 * 2.0 ** -30]
+STYLES = ["small", "small", "fine", "collinear", "chain", "dups", "const", "binary", "tiny", "tiny"]
+# units an objective may be measured in (powers of two: the exact regime still applies); 0 = unscaled
+EXPS = [0, 0, 0, -40, -33, -30, -27, -26, -20, -10, -3, 7, 13, 20]
+TINYCV = [2.0 ** -40, -2.0 ** -40, 2.0 ** -60, -2.0 ** -60, 3 * 2.0 ** -30]
+
+LAYOUTS = ["c", "c", "f", "strided", "readonly", "int"]      # how the arrays handed to the library are laid out in memory
+CVKINDS = ["float", "float", "npfloat", "np0d"]               # how the constraint scores are passed to dominates
 
 # ------------------------------------------------------------------ generators
 def _points(rng, npt, nobj, style):
@@ -75,17 +102,59 @@ def _points(rng, npt, nobj, style):
                 for p in pts: p[k] = c
         rng.shuffle(pts)
         return pts
+    if style == "tiny":               # exact ties next to differences of 2^-27 .. 2^-45 (far below any tolerance), per objective
+        cols = []
+        for k in range(nobj):
+            r = rng.random()
+            base = rng.choice([0.0, 0.0, 1.0, -2.5, rng.randint(-64, 64) / 64.0])
+            q = rng.randint(27, 45)
+            if r < 0.2: col = [base] * npt
+            elif r < 0.75: col = [base + rng.randint(0, 3) * 2.0 ** -q for _ in range(npt)]
+            else: col = [rng.randint(-128, 128) / 64.0 for _ in range(npt)]
+            cols.append(col)
+        return [[cols[k][i] for k in range(nobj)] for i in range(npt)]
     raise ValueError(style)
 
+def _units(rng, rows, nobj, style):
+    """express every objective in its own unit 2^e (e in -40..20); returns (rows, exps)"""
+    if style == "tiny" or rng.random() < 0.45: return rows, [0] * nobj
+    ex = [rng.choice(EXPS) for _ in range(nobj)]
+    return [[x * 2.0 ** e for x, e in zip(r, ex)] for r in rows], ex
+
+def _fx(a, op, b):
+    """the float operation is exact on these operands"""
+    fa, fb = Fraction(a), Fraction(b)
+    if op == "*": return Fraction(a * b) == fa * fb
+    if op == "+": return Fraction(a + b) == fa + fb
+    return Fraction(a - b) == fa - fb
+
+def _exact_rows(rows, mul, shift=None):
+    """products with the column multipliers, the optional translation and every difference inside a column are exact floats"""
+    if not rows: return True
+    for k, m in enumerate(mul):
+        col = [r[k] for r in rows]
+        if shift is not None:
+            if not all(_fx(x, "+", shift[k]) for x in col): return False
+            col = col + [x + shift[k] for x in col]
+        if not all(_fx(x, "*", m) for x in col): return False
+        v = [x * m for x in col]
+        if not all(_fx(a, "-", b) for a in (max(v), min(v)) for b in v) or not all(_fx(a, "-", min(v)) for a in v): return False
+    return True
+
 def _case_pareto(rng, npt, nobj, style):
-    fmat = _points(rng, npt, nobj, style)
+    fmat, ex = _units(rng, _points(rng, npt, nobj, style), nobj, style)
     wt = [rng.choice(WT) for _ in range(nobj)]
     if rng.random() < 0.35: wt = [rng.choice([1.0, -1.0]) for _ in range(nobj)]
+    if rng.random() < 0.15: wt = [w * 2.0 ** rng.choice([-40, -20, 20]) for w in wt]
     perm = list(range(npt)); rng.shuffle(perm)
     if rng.random() < 0.2: perm = perm[::-1] if perm == sorted(perm) else sorted(perm, reverse=True)
     scale = [rng.choice(POS) for _ in range(nobj)]
+    if rng.random() < 0.15: scale = [2.0 ** -40] * nobj
+    if not (_exact_rows(fmat, wt) and _exact_rows([[x * c for x, c in zip(r, scale)] for r in fmat], wt)
+            and all(_fx(x, "*", c) for r in fmat for x, c in zip(r, scale))):
+        scale = [rng.choice([0.25, 0.5, 2.0, 4.0]) for _ in range(nobj)]          # keep every float product exact
     return {"kind": "pareto", "style": style, "nobj": nobj, "fmat": fmat, "wt": wt, "perm": perm, "scale": scale,
-            "wt_col": rng.random() < 0.15}
+            "units": ex, "wt_col": rng.random() < 0.15, "layout": rng.choice(LAYOUTS)}
 
 def _sol(rng, nobj, near=None):
     if near is not None and rng.random() < 0.6:
@@ -94,16 +163,21 @@ def _sol(rng, nobj, near=None):
             o[rng.randrange(nobj)] += rng.choice([-1.0, 1.0, 0.5, -0.5, 0.0])
     else:
         o = [float(rng.randint(0, 3)) for _ in range(nobj)]
-    cv = rng.choice([-2.0, -1.0, -0.5, 0.0, 0.0, 0.0, 0.25, 0.5, 1.0, 1.0, 2.0])
+    cv = rng.choice([-2.0, -1.0, -0.5, 0.0, 0.0, 0.0, 0.25, 0.5, 1.0, 1.0, 2.0] + TINYCV)
     if near is not None and rng.random() < 0.3: cv = near[1]
     return [o, cv]
 
 def _case_dom(rng, nobj):
     a = _sol(rng, nobj); b = _sol(rng, nobj, a); c = _sol(rng, nobj, b)
-    return {"kind": "dom", "nobj": nobj, "sols": [a, b, c]}
+    e = rng.choice(EXPS)              # all objectives in a unit 2^e; and now and then objectives that differ by 2^-40 only
+    sols = [[[x * 2.0 ** e for x in o], cv] for o, cv in (a, b, c)]
+    if rng.random() < 0.2:
+        for s_ in sols[1:]:
+            k = rng.randrange(nobj); s_[0] = list(sols[0][0]); s_[0][k] = s_[0][k] + rng.choice([-1, 0, 1]) * 2.0 ** (e - 40)
+    return {"kind": "dom", "nobj": nobj, "sols": sols, "unit": e, "cvkind": rng.choice(CVKINDS)}
 
 def _case_dist(rng, fn, npt, nobj, style, domain=True):
-    mat = _points(rng, npt, nobj, style)
+    mat, ex = _units(rng, _points(rng, npt, nobj, style), nobj, style)
     sign = [rng.choice([1.0, -1.0]) for _ in range(nobj)]
     if rng.random() < 0.12: sign = [rng.choice([1.0, -1.0, 2.0, -0.5, 0.25, -3.0]) for _ in range(nobj)]
     pref = [rng.choice(PREF) for _ in range(nobj)]
@@ -117,7 +191,18 @@ def _case_dist(rng, fn, npt, nobj, style, domain=True):
         elif r < 0.7: pref[rng.randrange(nobj)] = -rng.choice(PREF[1:])
         else: sign = [0.0] * nobj
     shift = [rng.randint(-256, 256) / 64.0 for _ in range(nobj)]
-    return {"kind": "dist", "fn": fn, "style": style, "nobj": nobj, "mat": mat, "sign": sign, "pref": pref, "shift": shift}
+    if rng.random() < 0.5 or not _exact_rows(mat, sign, shift):
+        shift = [t * 2.0 ** e for t, e in zip(shift, ex)]                          # a translation in the objective's own unit
+    if not _exact_rows(mat, sign, shift): shift = [0.0] * nobj
+    if not _exact_rows(mat, sign): sign = [1.0 if x > 0 else -1.0 for x in sign] if any(sign) else sign
+    # the same front with every objective expressed in yet another unit 2^e (checked only when all float operations stay exact)
+    reunit = [rng.choice([-40, -40, -30, -27, -13, 5, 20]) for _ in range(nobj)]
+    if not mat or rng.random() < 0.5 or not _exact_rows([[x * 2.0 ** e for x, e in zip(r, reunit)] for r in mat], sign): reunit = None
+    route = "protocol" if fn == "prob" and rng.random() < 0.3 else "direct"
+    if route == "protocol" and domain and rng.random() < 0.5: sign, pref = [1.0] * nobj, [1.0] * nobj
+    return {"kind": "dist", "fn": fn, "style": style, "nobj": nobj, "mat": mat, "sign": sign, "pref": pref, "shift": shift,
+            "units": ex, "layout": rng.choice(LAYOUTS), "extra_kw": rng.random() < 0.1, "route": route, "session": rng.random() < 0.5,
+            "reunit": reunit}
 
 FNS = ["core", "prob", "transfn"]
 
@@ -144,6 +229,13 @@ def gen_cases(rng, tier):
                 for sign in ([1.0, 1.0], [1.0, -1.0]):
                     cases.append({"kind": "dist", "fn": fn, "style": "grid", "nobj": 2, "mat": front, "sign": sign,
                                   "pref": [a, b], "shift": [0.25, -3.0]})
+    # more points than an 8-bit index can count (survivor indices above 127 / 255)
+    for npt, style in ((140, "small"), (270, "collinear")) if quick else ((140, "small"), (270, "collinear"), (300, "dups"), (200, "tiny"), (260, "fine")):
+        c = _case_pareto(rng, npt, 2, style)
+        c["fmat"] = c["fmat"] + [[max(r[0] for r in c["fmat"]) + 1.0, min(r[1] for r in c["fmat"]) - 1.0]]   # a late survivor for sure
+        c["perm"] = c["perm"] + [npt]
+        if not _exact_rows(c["fmat"], c["wt"]): c["wt"] = [1.0, -1.0]
+        cases.append(c)
     nP, nD, nT, nX = (500, 240, 720, 45) if quick else (3000, 1500, 4500, 240)
     for _ in range(nP):
         nobj = rng.choice([1, 2, 2, 2, 3, 3, 4])
@@ -160,23 +252,54 @@ def gen_cases(rng, tier):
     return cases
 
 # ------------------------------------------------------------------ implementation driver
+def _session(case):
+    """second call on the SAME array object after an in-place update (translated and the points put in reverse order)"""
+    return bool(case.get("session")) and case.get("layout", "c") in ("c", "f", "strided")
+
 def _hx(a):
     return [float(x).hex() for x in numpy.asarray(a, dtype=float).ravel()]
 
-def _arr(rows, nobj):
-    return numpy.array(rows, dtype=float).reshape(len(rows), nobj)
+def _arr(rows, nobj, layout="c"):
+    a = numpy.array(rows, dtype=float).reshape(len(rows), nobj)
+    if layout == "f": return numpy.asfortranarray(a)
+    if layout == "strided":           # a non-contiguous view into a larger buffer filled with decoys
+        big = numpy.full((2 * len(rows) + 1, 2 * nobj + 1), 7.5); v = big[1::2, 1::2]; v[...] = a; return v
+    if layout == "int" and a.size and numpy.all(a == numpy.round(a)) and numpy.all(numpy.abs(a) < 2 ** 31):
+        return a.astype(numpy.int64)  # integer-valued objectives handed over as an integer array
+    if layout == "readonly": a.flags.writeable = False
+    return a
+
+def _vec(v, layout="c"):
+    a = numpy.array(v, dtype=float)
+    if layout == "strided":
+        big = numpy.full(2 * len(v) + 1, -3.25); w = big[1::2]; w[...] = a; return w
+    if layout == "readonly": a.flags.writeable = False
+    return a
+
+def _shares(out, *ins):
+    o = numpy.asarray(out)
+    return bool(any(numpy.shares_memory(o, numpy.asarray(i)) for i in ins))
 
 def run_impl(case):
     k = case["kind"]
     if k == "pareto":
         from pybrops.core.util.pareto import is_pareto_efficient
         nobj = case["nobj"]
-        f = _arr(case["fmat"], nobj); wt = numpy.array(case["wt"], dtype=float)
+        lay = case.get("layout", "c")
+        f = _arr(case["fmat"], nobj, lay); wt = _vec(case["wt"], lay)
         if case.get("wt_col"): wt = wt.reshape(nobj, 1)
         f0, w0 = f.copy(), wt.copy()
         m = is_pareto_efficient(f, wt, return_mask=True)
         ix = is_pareto_efficient(f, wt, return_mask=False)
         d = is_pareto_efficient(f, wt)
+        # results are fresh arrays: scribbling over them changes neither the inputs nor a later call
+        alias = _shares(m, f, wt) or _shares(ix, f, wt) or _shares(d, f, wt) or _shares(m, d)
+        keep_m, keep_ix = m.copy(), numpy.array(ix).copy()
+        if m.size: m[...] = ~m
+        if numpy.asarray(ix).size and numpy.asarray(ix).flags.writeable: ix[...] = -1
+        again = bool(numpy.array_equal(is_pareto_efficient(f, wt, True), keep_m)
+                     and numpy.array_equal(is_pareto_efficient(f, wt, False), keep_ix))
+        m, ix = keep_m, keep_ix
         fp = f[numpy.array(case["perm"], dtype=int)] if len(case["perm"]) else f.copy()
         mp = is_pareto_efficient(fp, wt, True)
         fs = f * numpy.array(case["scale"], dtype=float)[None, :]
@@ -186,39 +309,71 @@ def run_impl(case):
                 "idx": [int(x) for x in ix], "idx_kind": numpy.asarray(ix).dtype.kind, "idx_ndim": int(numpy.asarray(ix).ndim),
                 "default": [bool(x) for x in d], "default_dtype": str(numpy.asarray(d).dtype),
                 "mask_perm": [bool(x) for x in mp], "mask_scaled": [bool(x) for x in ms], "idx_scaled": [int(x) for x in ixs],
-                "unchanged": bool(numpy.array_equal(f, f0) and numpy.array_equal(wt, w0))}
+                "unchanged": bool(numpy.array_equal(f, f0) and numpy.array_equal(wt, w0)), "alias": alias, "again": again}
     if k == "dom":
         from pybrops.opt.algo.pymoo_addon import dominates
-        sols = [(numpy.array(o, dtype=float), float(cv)) for o, cv in case["sols"]]
+        ck = case.get("cvkind", "float")
+        mk = {"float": float, "npfloat": numpy.float64, "np0d": lambda x: numpy.array(float(x))}[ck]
+        sols = [(numpy.array(o, dtype=float), mk(cv)) for o, cv in case["sols"]]
         tab = []
         for (o1, c1) in sols:
             row = []
             for (o2, c2) in sols:
                 r = dominates(o1, c1, o2, c2)
+                if isinstance(r, numpy.ndarray) and r.shape == () and r.dtype == bool: r = bool(r)
                 if not isinstance(r, (bool, numpy.bool_)): raise TypeError("dominates returned %r" % type(r))
                 row.append(bool(r))
             tab.append(row)
         return {"tab": tab}
     if k == "dist":
         nobj = case["nobj"]
-        mat = _arr(case["mat"], nobj); sign = numpy.array(case["sign"], dtype=float); pref = numpy.array(case["pref"], dtype=float)
+        lay = case.get("layout", "c")
+        mat = _arr(case["mat"], nobj, lay); sign = _vec(case["sign"], lay); pref = _vec(case["pref"], lay)
         m0, s0, p0 = mat.copy(), sign.copy(), pref.copy()
+        kw = {"unused_option": 3} if case.get("extra_kw") else {}
         if case["fn"] == "core":
             from pybrops.core.util.trans import trans_ndpt_pseudo_dist
-            call = lambda M: trans_ndpt_pseudo_dist(M, objfn_minmax=sign, objfn_pseudoweight=pref)
+            call = lambda M: trans_ndpt_pseudo_dist(M, objfn_minmax=sign, objfn_pseudoweight=pref, **kw)
         elif case["fn"] == "prob":
             from pybrops.breed.prot.sel.prob.trans import trans_ndpt_to_vec_dist
-            call = lambda M: trans_ndpt_to_vec_dist(M, obj_wt=sign, vec_wt=pref)
+            if case.get("route") == "protocol":
+                # the library's own route: the default ndset_trans (and, for all-ones vectors, the default keyword arguments) that
+                # SelectionProtocol's property setters install
+                from pybrops.breed.prot.sel.SelectionProtocol import SelectionProtocol
+                class _Holder: pass
+                h = _Holder(); h.nobj = nobj
+                SelectionProtocol.ndset_trans.fset(h, None)
+                trans_ndpt_to_vec_dist = h._ndset_trans
+                if all(x == 1.0 for x in case["sign"] + case["pref"]):
+                    SelectionProtocol.ndset_trans_kwargs.fset(h, None)
+                    if sorted(h._ndset_trans_kwargs) != ["obj_wt", "vec_wt"]: raise TypeError("default ndset_trans_kwargs: %r" % sorted(h._ndset_trans_kwargs))
+                    sign, pref = h._ndset_trans_kwargs["obj_wt"], h._ndset_trans_kwargs["vec_wt"]
+                    s0, p0 = sign.copy(), pref.copy()
+                    if sign.tolist() != case["sign"] or pref.tolist() != case["pref"]: raise TypeError("default ndset_trans_kwargs are not all-ones vectors of length nobj")
+            call = lambda M: trans_ndpt_to_vec_dist(M, obj_wt=sign, vec_wt=pref, **kw)
         else:
             from pybrops.breed.prot.sel.transfn import trans_ndpt_to_vec_dist as tfn
-            call = lambda M: tfn(M, objfn_wt=sign, wt=pref)
+            call = (lambda M: tfn(M, objfn_wt=sign, wt=pref, **kw)) if nobj % 2 else (lambda M: tfn(M, sign, pref, **kw))
         import warnings
         with warnings.catch_warnings():
             warnings.simplefilter("ignore")
             d = call(mat)
             unchanged = bool(numpy.array_equal(mat, m0) and numpy.array_equal(sign, s0) and numpy.array_equal(pref, p0))
-            ds = call(mat + numpy.array(case["shift"], dtype=float)[None, :])
-        return {"d": _hx(d), "d_shape": list(numpy.asarray(d).shape), "d_shift": _hx(ds), "unchanged": unchanged}
+            alias = _shares(d, mat, sign, pref)
+            keep = numpy.array(d, dtype=float).copy()
+            if numpy.asarray(d).size and numpy.asarray(d).flags.writeable: d[...] = -1.0      # scribble over the result ...
+            again = bool(numpy.array_equal(numpy.asarray(call(mat), dtype=float), keep, equal_nan=True))   # ... a later call is unaffected
+            d = keep
+            du = None
+            if case.get("reunit"):
+                du = call(numpy.array(case["mat"], dtype=float).reshape(len(case["mat"]), nobj) * numpy.array([2.0 ** e for e in case["reunit"]])[None, :])
+            sh = numpy.array(case["shift"], dtype=float)[None, :]
+            if _session(case):
+                mat[...] = (mat + sh)[::-1]; ds = call(mat)     # the SAME array object, updated in place between the two calls
+            else:
+                ds = call(mat + sh)
+        return {"d": _hx(d), "d_shape": list(numpy.asarray(d).shape), "d_shift": _hx(ds), "unchanged": unchanged,
+                "alias": alias, "again": again, "d_unit": None if du is None else _hx(du)}
     raise ValueError(k)
 
 # ------------------------------------------------------------------ Coq emission
@@ -241,14 +396,16 @@ def emit_case(case, out):
                  "onl_eqb (pareto_idx %s %s) (Some %s)" % (wt, E.lst2(F, _q), E.lst(out["idx"], E.nat)),
                  "obl_eqb (pareto_mask %s %s) (Some %s)" % (wt, E.lst2(Fp, _q), E.lst(out["mask_perm"], E.b)),
                  "obl_eqb (pareto_mask %s %s) (Some %s)" % (wt, E.lst2(Fs, _q), E.lst(out["mask_scaled"], E.b)),
-                 "onl_eqb (pareto_idx %s %s) (Some %s)" % (wt, E.lst2(Fs, _q), E.lst(out["idx_scaled"], E.nat))]
+                 # the rescaled set through the loop RE-ASSEMBLED FROM THE GENERATED KERNELS (Gen/C19_Kernel.v)
+                 "onl_eqb (kern_pareto_idx %s %s) (Some %s)" % (wt, E.lst2(Fs, _q), E.lst(out["idx_scaled"], E.nat))]
         return "(" + "\n   && ".join(parts) + ")"
     if k == "dom":
         if "exc" in out: return "false"
         parts = []
         for i, (o1, c1) in enumerate(case["sols"]):
             for j, (o2, c2) in enumerate(case["sols"]):
-                parts.append("Bool.eqb (dominates_m %s %s %s %s) %s" % (E.lst(o1, _q), _q(c1), E.lst(o2, _q), _q(c2), E.b(out["tab"][i][j])))
+                fn_ = "dominates_m" if (i + j) % 2 == 0 else "k_dominates"        # hand model / body generated from the source
+                parts.append("Bool.eqb (%s %s %s %s %s) %s" % (fn_, E.lst(o1, _q), _q(c1), E.lst(o2, _q), _q(c2), E.b(out["tab"][i][j])))
         return "(" + "\n   && ".join(parts) + ")"
     if k == "dist":
         fnm = {"core": "trans_core", "prob": "trans_sel_prob", "transfn": "trans_sel_fn"}[case["fn"]]
@@ -256,9 +413,15 @@ def emit_case(case, out):
         M = E.lst2(case["mat"], _q)
         if "exc" in out:
             return "(tres_agree (%s %s %s %s) ORaised)" % (fnm, M, sign, pref)
-        Ms = E.lst2([[Fraction(x) + Fraction(t) for x, t in zip(r, case["shift"])] for r in case["mat"]], _q)
-        return "(tres_agree (%s %s %s %s) %s\n   && tres_agree (%s %s %s %s) %s)" % (
-            fnm, M, sign, pref, _obs(out["d"]), fnm, Ms, sign, pref, _obs(out["d_shift"]))
+        Ms = [[Fraction(x) + Fraction(t) for x, t in zip(r, case["shift"])] for r in case["mat"]]
+        Ms = E.lst2(Ms[::-1] if _session(case) else Ms, _q)
+        # the translated front through the body ASSEMBLED FROM THE GENERATED KERNELS of that copy (Gen/C19_Kernel.v)
+        knm = {"core": "kern_core", "prob": "kern_body K_prob", "transfn": "kern_body K_fn"}[case["fn"]]
+        extra = ""
+        if out.get("d_unit") is not None:       # the front in other units, against the MODEL's result for the original front (C19_unit_invariant)
+            extra = "\n   && tres_agree (%s %s %s %s) %s" % (fnm, M, sign, pref, _obs(out["d_unit"]))
+        return "(tres_agree (%s %s %s %s) %s\n   && tres_agree (%s %s %s %s) %s%s)" % (
+            fnm, M, sign, pref, _obs(out["d"]), knm, Ms, sign, pref, _obs(out["d_shift"]), extra)
     return "false"
 
 # ------------------------------------------------------------------ independent predicate
@@ -297,6 +460,8 @@ def _pred_pareto(case, out):
     if sorted(out["idx_scaled"]) != [i for i in range(n) if out["mask_scaled"][i]]:
         bad.append("mask and index forms disagree on the rescaled set")
     if not out["unchanged"]: bad.append("input arrays were modified")
+    if out.get("alias"): bad.append("a result shares memory with an input (or the two mask results with each other)")
+    if not out.get("again", True): bad.append("a repeated call on the same inputs gives a different result after the first result was overwritten")
     return bad
 
 def _pred_dom(case, out):
@@ -345,6 +510,7 @@ def _pred_dist(case, out):
         return []
     n = len(case["mat"])
     d = [_fh(h) for h in out["d"]]; ds = [_fh(h) for h in out["d_shift"]]
+    if _session(case): ds = ds[::-1]          # the second call saw the points in reverse order
     if out["d_shape"] != [n] or len(ds) != n: return ["output shape %s for %d points" % (out["d_shape"], n)]
     bad = []
     if any(not math.isfinite(x) for x in d + ds):
@@ -362,8 +528,15 @@ def _pred_dist(case, out):
                    "preference vector) gives sqrt(%s) = %r" % (i, d[i], want[i], math.sqrt(want[i])))
     for i in range(n):
         if not _close2(ds[i], want[i]):
-            bad.append("distance of point %d changes under translation by %s: %r vs %r" % (i, case["shift"], ds[i], d[i])); break
+            bad.append("distance of point %d changes under translation by %s%s: %r vs %r" % (
+                i, case["shift"], " (same array updated in place, points reversed)" if _session(case) else "", ds[i], d[i])); break
+    if out.get("d_unit") is not None:
+        du = [_fh(h) for h in out["d_unit"]]
+        if len(du) != n or any(not math.isfinite(x) for x in du) or any(not _close2(du[i], want[i]) for i in range(n)):
+            bad.append("distances change when the objectives are expressed in units 2^%s: %r vs %r" % (case["reunit"], du[:4], d[:4]))
     if not out["unchanged"]: bad.append("input arrays were modified")
+    if out.get("alias"): bad.append("the result shares memory with an input")
+    if not out.get("again", True): bad.append("a repeated call on the same inputs gives a different result after the first result was overwritten")
     return bad
 
 def pred(case, out):
@@ -397,6 +570,9 @@ def describe(case, out):
         n = len(_rows(case))
         d["npt"] = "0" if n == 0 else "1" if n == 1 else "2-5" if n <= 5 else "6-14" if n <= 14 else "15+"
         d["style"] = case.get("style", "?")
+        ex = case.get("units", [0])
+        d["units"] = "2^0" if not any(ex) else ("<=2^-27" if min(ex) <= -27 else "other")
+        d["layout"] = case.get("layout", "c")
     if k == "pareto" and "mask" in out:
         d["efficient"] = "all" if all(out["mask"]) else ("one" if sum(out["mask"]) == 1 else "some")
         d["weights"] = "zero-in" if any(x == 0 for x in case["wt"]) else ("mixed-sign" if len(set(x > 0 for x in case["wt"])) > 1 else "same-sign")
@@ -406,6 +582,64 @@ def describe(case, out):
     if k == "dom":
         d["feasible"] = "".join("F" if cv <= 0 else "I" for _, cv in case["sols"])
     return d
+
+# ------------------------------------------------------------------ entry points of the anchored modules (fail closed)
+COVERED = {   # file -> {function: parameters}; each is driven by run_impl with every parameter (positional and keyword forms)
+    "pybrops/core/util/pareto.py": {"is_pareto_efficient": ["fmat", "wt", "return_mask"]},
+    "pybrops/core/util/trans.py": {"trans_ndpt_pseudo_dist": ["ndptmat", "objfn_minmax", "objfn_pseudoweight"]},
+    "pybrops/breed/prot/sel/prob/trans.py": {"trans_ndpt_to_vec_dist": ["mat", "obj_wt", "vec_wt"]},
+    "pybrops/breed/prot/sel/transfn.py": {"trans_ndpt_to_vec_dist": ["mat", "objfn_wt", "wt"]},
+    "pybrops/opt/algo/pymoo_addon.py": {"dominates": ["obj1", "cv1", "obj2", "cv2"]},
+}
+_NOT_C19 = "not named by the property (no Pareto identification, dominance or distance-to-vector transformation)"
+SKIPPED = {
+    "pybrops/breed/prot/sel/prob/trans.py": {n: _NOT_C19 + "; latent-vector transformation of the selection problems"
+                                             for n in ("trans_identity", "trans_sum", "trans_dot", "trans_empty", "trans_decnvec_sum_eq")},
+    "pybrops/breed/prot/sel/transfn.py": {n: _NOT_C19 + "; legacy objective transformation"
+                                          for n in ("trans_sum", "trans_dot", "trans_flatten", "trans_inbmax_penalty", "trans_sum_inbmax_penalty",
+                                                    "trans_identity_unconstrained", "trans_max_inbreeding_constraint")},
+    "pybrops/opt/algo/pymoo_addon.py": dict(
+        {"tiled_choice": _NOT_C19 + "; sampling helper"},
+        **{n: _NOT_C19 + "; pymoo operator class (the hill climbers CALL dominates; their search loop is not part of this property)"
+           for n in ("SubsetRandomSampling", "ReducedExchangeCrossover", "ReducedExchangeMutation", "IntegerSimulatedBinaryCrossover",
+                     "IntegerPolynomialMutation", "MultiObjectiveStochasticHillClimberMutation",
+                     "MultiObjectiveSteepestDescentHillClimberMutation", "MultiObjectiveStochasticDescentHillClimberMutation",
+                     "StochasticHillClimberMutation", "MutatorA", "MutatorB", "MutatorF")}),
+}
+
+def _entry_points(repo):
+    """every public top-level function/class of the anchored modules is either driven (COVERED, with exactly the parameters the
+    driver passes) or listed in SKIPPED with a reason; anything new or re-parametrised fails the check until it is classified.
+    Also: SelectionProtocol still takes its default ndset_trans from sel/prob/trans.py (the route run_impl uses)."""
+    import ast, os
+    from translate import pyexpr as P
+    for rel, cov in COVERED.items():
+        tree = P.parse_file(repo, rel)
+        seen = {}
+        for n in tree.body:
+            if isinstance(n, (ast.FunctionDef, ast.AsyncFunctionDef, ast.ClassDef)) and not n.name.startswith("_"):
+                seen[n.name] = [a.arg for a in n.args.args] + [a.arg for a in n.args.kwonlyargs] if not isinstance(n, ast.ClassDef) else None
+        skip = SKIPPED.get(rel, {})
+        for name, params in seen.items():
+            if name in cov:
+                if params != cov[name]:
+                    raise P.Untranslatable("%s: %s now takes %s (the driver passes %s): extend the generators" % (rel, name, params, cov[name]))
+            elif name not in skip:
+                raise P.Untranslatable("%s: new public definition %s is neither driven by the C19 check nor listed in SKIPPED" % (rel, name))
+        for name in list(cov) + list(skip):
+            if name not in seen:
+                raise P.Untranslatable("%s: %s has disappeared" % (rel, name))
+    sp = P.parse_file(repo, "pybrops/breed/prot/sel/SelectionProtocol.py")
+    imp = [n for n in ast.walk(sp) if isinstance(n, ast.ImportFrom) and any(a.name == "trans_ndpt_to_vec_dist" for a in n.names)]
+    if len(imp) != 1 or imp[0].module != "pybrops.breed.prot.sel.prob.trans" or any(a.asname for a in imp[0].names):
+        raise P.Untranslatable("SelectionProtocol no longer imports trans_ndpt_to_vec_dist from pybrops.breed.prot.sel.prob.trans")
+
+def translate(repo, gen_dir):
+    """regenerate Gen/C19_Kernel.v (kernel expressions of is_pareto_efficient, dominates and the three distance transformations)
+    from the current source; fail closed"""
+    from translate import c19_kernel
+    _entry_points(repo)
+    return [c19_kernel.translate(repo, gen_dir)]
 
 def shrink(case, fails):
     """drop points while the predicate still fails"""
